@@ -49,7 +49,7 @@ type gproc struct {
 
 // labels that are logged but never park (they execute while a library lock is held)
 var logOnly = map[string]bool{
-	"notify.sent": true, "notify.dropped": true, "free.push": true, "free.stop": true,
+	"notify.sent": true, "notify.dropped": true,
 }
 
 type gate struct {
